@@ -45,12 +45,36 @@ def _val(rng, style, lo=-6, hi=6):
 
 
 def make_history(rng):
-    style = rng.choice(["dyadic", "dyadic", "float", "float", "near"])
+    style = rng.choice(["dyadic", "dyadic", "float", "float", "near", "all-large", "all-large", "all-small"])
+    if style in ("all-large", "all-small"):
+        return scale_regime_history(rng, style)
     k = rng.choice([1, 1, 2, 2, 3, 4, 5, 8])
     pop = [_val(rng, style) for _ in range(k)]
     incs = [_val(rng, style) for _ in range(k - 1)]
     brks = [float(x) for x in np.cumsum(incs)] if incs else []
     return {"style": style, "pop": pop, "brks": brks}
+
+
+def scale_regime_history(rng, style):
+    """multi-epoch history whose sizes are ALL very large (1e7..1e13) or ALL very small (1e-6..1e-2),
+    differing by factors 1.5..1e4, with epochs of comparable COALESCENT duration (so that the breaks live
+    on the matching generation scale and a gamma can spread its mass over several epochs)"""
+    lo, hi = (1e7, 1e13) if style == "all-large" else (1e-6, 1e-2)
+    k = rng.choice([2, 2, 3, 3, 4, 5])
+    n = 10.0 ** rng.uniform(math.log10(lo), math.log10(hi))
+    pop = [n]
+    for _ in range(k - 1):
+        f = 10.0 ** rng.uniform(math.log10(1.5), 4)
+        cand = [x for x in (pop[-1] * f, pop[-1] / f) if lo <= x <= hi]
+        pop.append(rng.choice(cand) if cand else (pop[-1] / f if pop[-1] * f > hi else pop[-1] * f))
+    if rng.random() < 0.3:                      # round numbers such as 2e8, 2e10, 2e12
+        pop = [float("%.0e" % x) for x in pop]
+    unit = 10.0 ** rng.uniform(-1.5, 1.5)       # coalescent duration scale of an epoch
+    t, brks = 0.0, []
+    for i in range(k - 1):
+        t += unit * 10.0 ** rng.uniform(-1, 0.5) * 2 * pop[i]
+        brks.append(float("%.3g" % t) if rng.random() < 0.3 and float("%.3g" % t) > (brks[-1] if brks else 0) else t)
+    return {"style": style, "pop": [float(x) for x in pop], "brks": [float(x) for x in brks]}
 
 
 def make_invalid(rng):
@@ -425,6 +449,58 @@ def oracle_quadrature(ctx, case, out):
             return
 
 
+def mp_gamma_reference(pop, brks, shape, rate):
+    """exact (60 digits, mpmath) mean/variance in generations of X ~ Gamma(shape, rate) on the coalescent
+    scale pushed through the piecewise-linear map of the history given by the DOUBLES pop/brks, from the
+    partial moments of the gamma density; and a forward bound on the rounding error of the code's own
+    formula (demography.py:182-212) per unit of relative error delta in its terms:
+    -> (mean, var, err_mean, err_var0) with err_* per unit delta"""
+    import mpmath
+    mp = mpmath.mp
+    old = mp.dps
+    mp.dps = 60
+    try:
+        tb = [mpmath.mpf(0)] + [mpmath.mpf(b) for b in brks]
+        m = [2 * mpmath.mpf(p) for p in pop]
+        cb = [mpmath.mpf(0)]
+        for j in range(len(tb) - 1):
+            cb.append(cb[-1] + (tb[j + 1] - tb[j]) / m[j])
+        s, r = mpmath.mpf(shape), mpmath.mpf(rate)
+        edges = cb + [mpmath.inf]
+        mean = var0 = err_m = err_v = mpmath.mpf(0)
+        kfac = [mpmath.rf(s, j) / r ** j for j in range(3)]        # Gamma(s+j) / (Gamma(s) r^j)
+        for i in range(len(tb)):
+            a0 = tb[i] - m[i] * cb[i]                             # g(c) = a0 + m_i c on epoch i
+            P = []
+            for j in range(3):
+                hi = mpmath.mpf(1) if edges[i + 1] == mpmath.inf else mpmath.gammainc(s + j, 0, r * edges[i + 1], regularized=True)
+                lo = mpmath.gammainc(s + j, 0, r * edges[i], regularized=True) if edges[i] > 0 else mpmath.mpf(0)
+                P.append((hi - lo, abs(hi) + abs(lo)))
+            c0, c1, c2 = (kfac[j] * P[j][0] for j in range(3))
+            e0, e1, e2 = (kfac[j] * P[j][1] for j in range(3))       # size of what is subtracted in np.diff
+            mean += m[i] * c1 + a0 * c0
+            var0 += m[i] ** 2 * c2 + 2 * a0 * m[i] * c1 + a0 ** 2 * c0
+            # a0 itself is a difference of two roundings: |tb| + |m cb|
+            a0s = abs(tb[i]) + abs(m[i] * cb[i])
+            err_m += m[i] * e1 + a0s * e0
+            err_v += m[i] ** 2 * e2 + 2 * a0s * m[i] * e1 + a0s ** 2 * e0
+        return float(mean), float(var0 - mean ** 2), float(err_m), float(err_v)
+    finally:
+        mp.dps = old
+
+
+GAMMA_DELTA = 2.0 ** -52 * 64        # measured on /repo: worst observed error / bound < 0.1 with this delta
+
+
+def gamma_tolerances(mn, va, err_m, err_v, shape):
+    """relative tolerances for (new_shape, new_rate) = (mn^2/va, mn/va) given the forward bound"""
+    d = GAMMA_DELTA * (1.0 + shape)
+    em = d * err_m                       # absolute error of mn
+    ev = d * err_v + 2 * abs(mn) * em    # absolute error of va = va0 - mn^2
+    rel_m, rel_v = em / abs(mn), ev / abs(va)
+    return 2 * rel_m + rel_v + 1e-13, rel_m + rel_v + 1e-13
+
+
 def oracle_gamma(ctx, it, res, h):
     rp = {"case": {k: it[k] for k in ("pop", "brks", "shape", "rate")}, "impl": res}
     if isinstance(res, str):
@@ -443,6 +519,20 @@ def oracle_gamma(ctx, it, res, h):
         if not (K.close(res[0], want[0], rel=1e-7 * max(1.0, shape)) and K.close(res[1], want[1], rel=1e-7 * max(1.0, shape))):
             ctx.oracle_fail("gamma-constant", "constant size: result is not (shape, rate / 2N)", dict(rp, expected=want))
         return
+    # several epochs: exact partial-moment reference, tolerance = forward error bound of the code's formula
+    mn, va, err_m, err_v = mp_gamma_reference(it["pop"], it["brks"], shape, rate)
+    if va > 0 and mn > 0:
+        want = (mn * mn / va, mn / va)
+        tol_s, tol_r = gamma_tolerances(mn, va, err_m, err_v, shape)
+        it["tol"] = (tol_s, tol_r)
+        if tol_s < 0.05:                 # otherwise the code's own formula has no digits left: nothing to compare
+            ctx.tally("gamma/exact-reference")
+            if not (K.close(res[0], want[0], rel=tol_s) and K.close(res[1], want[1], rel=tol_r)):
+                ctx.oracle_fail("gamma-moments-exact", "mean/variance differ from the exact moments of the mapped coalescent gamma",
+                                dict(rp, expected=want, mean=mn, var=va, tolerance=[tol_s, tol_r]))
+                return
+        else:
+            ctx.tally("gamma/ill-conditioned-skipped")
     if not it.get("quad"):
         return
     mn, va = quad_gamma_moments(h, shape, rate)
@@ -638,7 +728,7 @@ def gamma_block(ctx, model_ok, cases, outs, n, n_quad):
         h = o["obj"]
         shape = ctx.rng.choice([0.3, 1.0, 2.0, 5.5, 30.0, 120.0, 10.0 ** ctx.rng.uniform(-0.5, 2)] + ([200.0] if k % 40 == 7 else []))
         cb = [float(x) for x in h.coalescent_breaks]
-        centre = ctx.rng.choice(cb[1:] + [cb[-1] * 3 + 1.0, 0.3 * (cb[1] if len(cb) > 1 else 1.0)])
+        centre = ctx.rng.choice(cb[1:] + cb[1:] + [cb[-1] * 3 if cb[-1] > 0 else 1.0, 0.3 * (cb[1] if len(cb) > 1 else 1.0)])
         rate = shape / centre if centre > 0 else shape
         if (shape + 2) * abs(math.log10(rate)) > 250:         # rate ** (shape + 2) must not overflow / underflow
             rate = 10.0 ** math.copysign(250.0 / (shape + 2), math.log10(rate))
